@@ -98,7 +98,7 @@ SpecStep == InitStep /\ [][NextStep]_vars
 
 (* connect-focused transitions: every legal state over <= 3 of the nodes, every connect call with lists of
    length 1..2 over the present names and one absent name.  Used with CGV_EMIT to replay EVERY transition. *)
-TypesConn == {"buf", "and", "input", "bb_output", "bb_input"}
+TypesConn == {"buf", "and", "input", "x", "bb_output", "bb_input"}
 ConnMaxEdges == IF "CONN_MAXEDGES" \in DOMAIN IOEnv THEN atoi(IOEnv.CONN_MAXEDGES) ELSE 1
 ConnNodes == IF "CONN_NODES4" \in DOMAIN IOEnv THEN UNodes ELSE {"a", "g", "i.q"}
 ConnStatesOver(N) == UNION { { [nodes |-> N, ty |-> T, out |-> [x \in N |-> FALSE], edges |-> E, bbs |-> <<>>] :
@@ -116,7 +116,7 @@ SpecConn == InitConn /\ [][NextConn]_vars
    over the present names and one absent name, uid on and off. *)
 AddNames == {"h", "a", "1n", "i.q"}
 AddTypes == {"buf", "and", "input", "bb_output", "bb_input", "foo", "0"}
-InitAdd == /\ \E N \in {M \in SUBSET {"a", "g", "i.q"} : Cardinality(M) <= 2} : st \in ConnStatesOver(N)
+InitAdd == /\ \E N \in {M \in SUBSET {"a", "a_0", "i.q"} : Cardinality(M) <= 2} : st \in ConnStatesOver(N)
            /\ removed = {} /\ last = "" /\ lastExc = ""
 NextAdd == AddAct(AddNames, AddTypes, L012(Here), L012(Here))
 SpecAdd == InitAdd /\ [][NextAdd]_vars
